@@ -63,6 +63,8 @@ func (o *orch) runReplay(rc *replayCase) {
 	o.c.Count("host|drain-per-kernel", 1<<20)
 	o.c.Count("host|enqueue-all-then-drain", 1<<20)
 	o.c.Count("motif|scalar-reread-of-kernel-written-data", 1<<20)
+	o.c.Count("launches_with_partial_workgroups", 1<<20)
+	o.c.Count("cases_with_mixed_wavefront_counts_per_cu", 1<<20)
 	for i := 0; i < 500; i++ {
 		o.c.Nontrivial(fmt.Sprintf("replay-%d", i))
 	}
@@ -227,6 +229,14 @@ func (o *orch) compareOn(j *job, emu *Result, ts PlatSpec) (held bool) {
 	c := o.c
 	t := o.runCase(j.caseFor(ts, false))
 	c.Count("timing_runs", 1)
+	if os.Getenv("C02_FLAGS") != "" {
+		fmt.Printf("[C02] flags %s on %s: %v (cus=%d)\n", j.id, ts.Name, t.flags, func() int {
+			if t.res != nil {
+				return t.res.CUs
+			}
+			return -1
+		}())
+	}
 	c.Distinct("platform_variants", ts.Name)
 	if t.timeout {
 		o.inconclusive(j, "timing run on "+ts.Name+": watchdog fired")
@@ -272,6 +282,46 @@ func (o *orch) compareOn(j *job, emu *Result, ts PlatSpec) (held bool) {
 		c.Count("buffer_bytes_compared", bytes)
 		for name, n := range emu.Motifs {
 			c.Count(name, int64(n))
+		}
+		// launches with partial work-groups; cases in which work-groups of
+		// different wavefront counts have to share compute units (more groups
+		// than compute units)
+		mixed := false
+		for _, ki := range emu.KernelInfo {
+			b, _ := json.Marshal(ki["launch"])
+			var l Launch
+			if json.Unmarshal(b, &l) != nil || l.WG[0] == 0 {
+				continue
+			}
+			counts := map[int]bool{}
+			partial := false
+			for d := 0; d < 3; d++ {
+				partial = partial || l.Grid[d]%uint32(l.WG[d]) != 0
+			}
+			if partial {
+				c.Count("launches_with_partial_workgroups", 1)
+				ext := func(d int) []int {
+					out := []int{int(l.WG[d])}
+					if r := int(l.Grid[d] % uint32(l.WG[d])); r != 0 {
+						out = append(out, r)
+					}
+					return out
+				}
+				for _, a := range ext(0) {
+					for _, b2 := range ext(1) {
+						for _, c2 := range ext(2) {
+							counts[(a*b2*c2+63)/64] = true
+						}
+					}
+				}
+				n := l.numWG()
+				if len(counts) >= 2 && t.res.CUs > 0 && n[0]*n[1]*n[2] > 2*t.res.CUs {
+					mixed = true
+				}
+			}
+		}
+		if mixed {
+			c.Count("cases_with_mixed_wavefront_counts_per_cu", 1)
 		}
 		for op := range emu.Opcodes {
 			c.Distinct("opcodes_in_compared_traces", j.pair.Arch+"/"+op)
@@ -491,6 +541,12 @@ func (o *orch) keyFor(j *job, ts PlatSpec, variant, diff string, t, tfRun runOut
 		if strings.HasPrefix(f, "vgpr-window-overflow") {
 			wit["vgpr_window_overflow"] = f
 			return prefix + "|vgpr-window-overflow", "co-resident wavefronts corrupt each other's vector registers: the dispatcher places a wavefront so that its VGPRs exceed the per-lane window of cu.SimpleRegisterFile (1024 bytes = 256 registers per lane) and alias the next lane's registers of other wavefronts; observed as: " + diff + " (" + f + ")"
+		}
+	}
+	for _, f := range append(append([]string{}, t.flags...), tfRun.flags...) {
+		if strings.HasPrefix(f, "sgpr-overlap") {
+			wit["sgpr_overlap"] = f
+			return prefix + "|sgpr-overlap-between-resident-wavefronts", "the dispatcher gives a new wavefront scalar registers that a wavefront still running on the same compute unit owns (resource bookkeeping of the command processor); observed as: " + diff + " (" + f + ")"
 		}
 	}
 	for _, f := range append(append([]string{}, t.flags...), tfRun.flags...) {
